@@ -105,21 +105,31 @@ Qed.
 (* ---- a fresh router ---- *)
 Lemma init_router_ok : forall i, router_ok (init_router i).
 Proof.
-  intros i. unfold init_router, rib_set. simpl.
-  assert (L : (0 <? INF) = true) by (apply N.ltb_lt; exact INF_pos).
-  unfold entry_set. simpl. unfold refresh. simpl. unfold refresh_fold. simpl. rewrite L. simpl.
-  assert (Hnd : NoDup (map fst [(i, 0)])) by (constructor; [intros [] | constructor]).
-  unfold router_ok. simpl. split; [|split; [|split]].
+  intros i.
+  set (e0 := with_costs new_entry (aset i 0 (costs new_entry))).
+  assert (Hrib : rrib (init_router i) = [(i, fst (refresh e0))]).
+  { unfold init_router, rib_set, entry_set. simpl. change (with_costs new_entry [(i, 0)]) with e0.
+    destruct (refresh e0); reflexivity. }
+  assert (Hnd : NoDup (map fst (costs e0))) by (simpl; constructor; [intros [] | constructor]).
+  assert (Hcap : capped e0).
+  { intros h c. simpl. destruct (h =? i); [|discriminate]. intros H. inversion H. pose proof INF_pos. lia. }
+  pose proof (refresh_ok e0 Hnd Hcap) as Hok.
+  pose proof (refresh_costs e0) as Hc. simpl in Hc.
+  set (e' := fst (refresh e0)) in *.
+  assert (Hlow : low1 e' < INF).
+  { pose proof (refresh_fold_spec (costs e0) Hnd) as T. rewrite <- (refresh_cached e0) in T. fold e' in T.
+    unfold cached in T. destruct T as [[(_ & _ & Fa) | (Fl & _)] _]; [|exact Fl].
+    specialize (Fa i 0). simpl in Fa. pose proof INF_pos. assert (INF <= 0) by (apply Fa; left; reflexivity). lia. }
+  unfold router_ok, hops_ok. rewrite !Hrib.
+  change (self (init_router i)) with i. change (nbrs (init_router i)) with (@nil node).
+  split; [|split; [|split]].
   - split; [constructor; [intros [] | constructor]|].
     intros d e. simpl. destruct (d =? i); [|discriminate].
-    intros H. inversion H; subst e; clear H. split; [|simpl; exact INF_pos].
-    split; [|reflexivity]. split; [exact Hnd|]. split.
-    + intros h c. simpl. destruct (h =? i); [|discriminate]. intros H. inversion H. pose proof INF_pos. lia.
-    + intros _. unfold cached, refresh_fold. simpl. rewrite L. reflexivity.
-  - intros d h. unfold rv. simpl. destruct (d =? i) eqn:Ed; [|intros; lia].
-    unfold cvE. simpl. destruct (h =? i) eqn:Eh; [|intros; lia].
+    intros H. inversion H; subst e. split; [exact Hok | exact Hlow].
+  - intros d h. unfold rv. cbn [aget]. destruct (d =? i) eqn:Ed; [|intros H; exfalso; lia].
+    unfold cvE. rewrite Hc. cbn [aget]. destruct (h =? i) eqn:Eh; [|intros H; exfalso; lia].
     intros _. right. split; lia.
-  - unfold rv. simpl. rewrite N.eqb_refl. unfold cvE. simpl. rewrite N.eqb_refl. reflexivity.
+  - unfold rv. cbn [aget]. rewrite N.eqb_refl. unfold cvE. rewrite Hc. cbn [aget]. rewrite N.eqb_refl. reflexivity.
   - intros [].
 Qed.
 
